@@ -499,18 +499,43 @@ func diff(a, b Output) string {
 	return fmt.Sprintf("outputs (%d vs %d bytes) first differ at offset %d:\n  A: …%s\n  B: …%s", len(x), len(y), i, clip(x[lo:], 260), clip(y[lo:], 260))
 }
 
-// reference computes every spec in a fresh process of this same binary.
+// reference computes every spec in its own fresh process of this same binary: another
+// process, another seed, and no neighbour at all (not even the session's other specs).
 func reference(specs []Spec, salt uint64) ([]Output, error) {
+	outs := make([]Output, len(specs))
+	errs := make([]error, len(specs))
+	var wg sync.WaitGroup
+	sem := make(chan struct{}, 2)
+	for i := range specs {
+		wg.Add(1)
+		sem <- struct{}{}
+		go func(i int) {
+			defer wg.Done()
+			defer func() { <-sem }()
+			o, err := referenceOne(specs[i], salt+uint64(i)*7919)
+			outs[i], errs[i] = o, err
+		}(i)
+	}
+	wg.Wait()
+	for _, err := range errs {
+		if err != nil {
+			return nil, err
+		}
+	}
+	return outs, nil
+}
+
+func referenceOne(spec Spec, salt uint64) (Output, error) {
 	dir, err := os.MkdirTemp("", "verifsim-pipe-ref-")
 	if err != nil {
-		return nil, err
+		return Output{}, err
 	}
 	defer os.RemoveAll(dir)
 	in := filepath.Join(dir, "in.json")
 	out := filepath.Join(dir, "out.json")
-	b, _ := json.Marshal(specs)
+	b, _ := json.Marshal([]Spec{spec})
 	if err := os.WriteFile(in, b, 0644); err != nil {
-		return nil, err
+		return Output{}, err
 	}
 	cmd := exec.Command(os.Args[0], "-test.run", "^TestReference$", "-test.timeout", "0")
 	cmd.Env = append(os.Environ(), "VSIM_REF_IN="+in, "VSIM_REF_OUT="+out, fmt.Sprintf("VSIM_REF_SALT=%d", salt^0x5a5a5a5a5a), "GOMAXPROCS=1")
@@ -524,24 +549,24 @@ func reference(specs []Spec, salt uint64) ([]Output, error) {
 	select {
 	case err := <-done:
 		if err != nil {
-			return nil, fmt.Errorf("%v: %s", err, clip(string(stderr), 2000))
+			return Output{}, fmt.Errorf("%v: %s", err, clip(string(stderr), 2000))
 		}
 	case <-time.After(10 * time.Minute):
 		cmd.Process.Kill()
-		return nil, fmt.Errorf("reference process timed out")
+		return Output{}, fmt.Errorf("reference process timed out")
 	}
 	rb, err := os.ReadFile(out)
 	if err != nil {
-		return nil, err
+		return Output{}, err
 	}
 	var outs []Output
 	if err := json.Unmarshal(rb, &outs); err != nil {
-		return nil, err
+		return Output{}, err
 	}
-	if len(outs) != len(specs) {
-		return nil, fmt.Errorf("reference returned %d results for %d specs", len(outs), len(specs))
+	if len(outs) != 1 {
+		return Output{}, fmt.Errorf("reference returned %d results for 1 spec", len(outs))
 	}
-	return outs, nil
+	return outs[0], nil
 }
 
 // ReferenceMain is the body of the reference process.
